@@ -8,6 +8,7 @@ package eng
 import (
 	"go/token"
 	"go/types"
+	"strconv"
 	"strings"
 
 	"golang.org/x/tools/go/ssa"
@@ -362,4 +363,108 @@ func init() {
 	reg("sync.OnceFunc", once(0))
 	reg("sync.OnceValue", once(1))
 	reg("sync.OnceValues", once(2))
+}
+
+// goQuoteBytes: strconv.Quote semantics for ASCII strings with symbolic bytes
+// (forks on the escape class of each symbolic byte).
+func (g *G) goQuoteBytes(s Str) []*Term {
+	bs, ok := s.Bytes()
+	if !ok {
+		g.inconclusive("strconv.Quote of an opaque string")
+	}
+	c8 := func(c byte) *Term { return BVConst(uint64(c), 8) }
+	hex := func(n *Term) *Term {
+		return Ite(BVCmp("bvult", n, c8(10)), BVBin("bvadd", n, c8('0')), BVBin("bvadd", n, c8('a'-10)))
+	}
+	out := []*Term{c8('"')}
+	for _, b := range bs {
+		eq := func(c byte) *Term { return Eq(b, c8(c)) }
+		two := Or(eq('"'), Or(eq('\\'), Or(eq(7), Or(eq(8), Or(eq(12), Or(eq('\n'), Or(eq('\r'), Or(eq('\t'), eq(11)))))))))
+		four := And(Not(two), Or(BVCmp("bvult", b, c8(0x20)), eq(0x7f)))
+		switch {
+		case g.branch(mkBool(two)):
+			second := Ite(eq('"'), c8('"'), Ite(eq('\\'), c8('\\'), Ite(eq(7), c8('a'), Ite(eq(8), c8('b'), Ite(eq(12), c8('f'),
+				Ite(eq('\n'), c8('n'), Ite(eq('\r'), c8('r'), Ite(eq('\t'), c8('t'), c8('v')))))))))
+			out = append(out, c8('\\'), second)
+		case g.branch(mkBool(four)):
+			out = append(out, c8('\\'), c8('x'), hex(BVBin("bvlshr", b, c8(4))), hex(BVBin("bvand", b, c8(15))))
+		default:
+			out = append(out, b)
+		}
+	}
+	return append(out, c8('"'))
+}
+
+func init() {
+	reg("strconv.Quote", func(g *G, fr *Frame, fn *ssa.Function, a []Value) Value {
+		s := a[0].(Str)
+		if s.IsConc() {
+			return S(strconv.Quote(s.C))
+		}
+		return strFromBytes(g.goQuoteBytes(s))
+	})
+	reg("strconv.AppendQuote", func(g *G, fr *Frame, fn *ssa.Function, a []Value) Value {
+		s := a[1].(Str)
+		var q *Blob
+		if s.IsConc() {
+			q = blobBytes([]byte(strconv.Quote(s.C)))
+		} else {
+			q = blobFromTerms(g.goQuoteBytes(s))
+		}
+		return blobConcat(g, g.asBlob(a[0]), q)
+	})
+	appendInt := func(signed bool) Intrinsic {
+		return func(g *G, fr *Frame, fn *ssa.Function, a []Value) Value {
+			v := a[1].(Int)
+			base := a[2].(Int)
+			if base.T != nil {
+				g.inconclusive("strconv.AppendInt with a symbolic base")
+			}
+			if v.T == nil {
+				var txt string
+				if signed {
+					txt = strconv.FormatInt(int64(v.C), int(base.C))
+				} else {
+					txt = strconv.FormatUint(v.C, int(base.C))
+				}
+				return blobConcat(g, g.asBlob(a[0]), blobBytes([]byte(txt)))
+			}
+			if base.C != 10 {
+				g.inconclusive("strconv.AppendInt of a symbolic value in a base other than 10")
+			}
+			// the decimal text of a symbolic integer is a JSON number token with that value
+			x := v
+			return blobConcat(g, g.asBlob(a[0]), &Blob{Segs: []BSeg{{D: &Doc{K: DNum, NI: &x, NSigned: signed}}}})
+		}
+	}
+	reg("strconv.AppendInt", appendInt(true))
+	reg("strconv.AppendUint", appendInt(false))
+	reg("strconv.FormatInt", func(g *G, fr *Frame, fn *ssa.Function, a []Value) Value {
+		v := a[0].(Int)
+		if v.T != nil {
+			return Str{Segs: []Seg{{Q: "itoa_s(" + v.T.Key() + ")"}}}
+		}
+		return S(strconv.FormatInt(int64(v.C), int(a[1].(Int).C)))
+	})
+	reg("strconv.FormatUint", func(g *G, fr *Frame, fn *ssa.Function, a []Value) Value {
+		v := a[0].(Int)
+		if v.T != nil {
+			return Str{Segs: []Seg{{Q: "itoa_u(" + v.T.Key() + ")"}}}
+		}
+		return S(strconv.FormatUint(v.C, int(a[1].(Int).C)))
+	})
+	reg("strconv.Atoi", func(g *G, fr *Frame, fn *ssa.Function, a []Value) Value {
+		n, err := strconv.Atoi(concStr(g, a[0]))
+		if err != nil {
+			return Tuple{Int{}, g.mkError(S(err.Error()), Iface{})}
+		}
+		return Tuple{I64(int64(n)), Iface{}}
+	})
+	reg("strconv.ParseInt", func(g *G, fr *Frame, fn *ssa.Function, a []Value) Value {
+		n, err := strconv.ParseInt(concStr(g, a[0]), int(a[1].(Int).C), int(a[2].(Int).C))
+		if err != nil {
+			return Tuple{Int{}, g.mkError(S(err.Error()), Iface{})}
+		}
+		return Tuple{I64(n), Iface{}}
+	})
 }
